@@ -48,6 +48,8 @@ def failure_kind(mm):
     """coarse, stable description of how a step failed: part of every finding signature"""
     import re
     msg = mm.get("msg", "")
+    if mm.get("kind") == "raised" and "RecursionError" in msg:
+        return "raised:RecursionError"      # the frame where the recursion limit is hit is not stable
     if mm.get("kind") == "raised":
         m = re.search(r"raised (\w+):.* at (\S+?):\d+ \((\w+)\)", msg)
         if m:
